@@ -105,7 +105,94 @@ fn check_addr(ip: IpAddr, part: &mut Part) {
     }
 }
 
+/// Call-history layer: `from_ip` must be a function of its argument alone. Alphabet: IPv4 addresses and
+/// the IPv6 addresses whose leading octets repeat them (so that any per-process cache keyed on the
+/// masked octets, a prefix of them, or the raw leading bytes sees a collision across families), plus
+/// same-family neighbours differing only in bits the mask drops. Every ordered sequence of length
+/// 1..=depth over the alphabet is run and *every* call of the sequence is validated.
+fn history_alphabet() -> Vec<IpAddr> {
+    let v4s: [[u8; 4]; 6] = [[0, 0, 0, 0], [1, 2, 3, 4], [201, 2, 3, 4], [3, 15, 63, 255], [124, 31, 75, 21], [255, 255, 255, 255]];
+    let mut al: Vec<IpAddr> = vec![];
+    for q in v4s {
+        al.push(IpAddr::V4(Ipv4Addr::from(q)));
+        // same leading octets, rest zero (+ host part): masked buffers coincide when zero-padded
+        let mut o = [0u8; 16];
+        o[..4].copy_from_slice(&q);
+        o[15] = 1;
+        al.push(IpAddr::V6(Ipv6Addr::from(o)));
+        // the IPv4 octets masked as from_ip masks them, as an IPv6 prefix
+        let mut m = [0u8; 16];
+        for i in 0..4 {
+            m[i] = q[i] & V4_MASK[i];
+        }
+        m[9] = 0x12;
+        al.push(IpAddr::V6(Ipv6Addr::from(m)));
+        // IPv6 whose octets 4..8 are non-zero on top of the same leading octets
+        let mut n = o;
+        n[4] = 0x1f;
+        n[7] = 0xff;
+        al.push(IpAddr::V6(Ipv6Addr::from(n)));
+    }
+    al.sort();
+    al.dedup();
+    al
+}
+
+fn history_layer(depth: usize, rep: &mut Report) -> (u64, u64) {
+    let al = history_alphabet();
+    let n = al.len();
+    let (mut seqs, mut calls) = (0u64, 0u64);
+    let mut reported = 0;
+    // the calls made before a failing one *in this process*, across sequence boundaries: what a
+    // process-wide cache would depend on, and what the replay file has to repeat
+    let mut recent: std::collections::VecDeque<IpAddr> = Default::default();
+    for len in 1..=depth {
+        let total = n.pow(len as u32);
+        for code in 0..total {
+            let mut c = code;
+            let mut hist = Vec::with_capacity(len);
+            for _ in 0..len {
+                hist.push(al[c % n]);
+                c /= n;
+            }
+            seqs += 1;
+            for (k, ip) in hist.iter().enumerate() {
+                let id: [u8; 20] = InfoHash::from_ip(*ip).into();
+                calls += 1;
+                if !bep42_valid(*ip, &id) && reported < 3 {
+                    reported += 1;
+                    let mut h: Vec<String> = recent.iter().map(|a| a.to_string()).collect();
+                    h.push(ip.to_string());
+                    rep.violation(
+                        format!("from_ip-fails-bep42-after-history family={}", if ip.is_ipv4() { "v4" } else { "v6" }),
+                        format!("after the calls {:?} InfoHash::from_ip({ip}) = {} fails the BEP42 check", &h[..h.len() - 1], hex(&id)),
+                        json!({"engine":"E3","check":"C20","ip": ip.to_string(), "id": hex(&id), "history": h}),
+                    );
+                }
+                recent.push_back(*ip);
+                if recent.len() > 6 {
+                    recent.pop_front();
+                }
+            }
+        }
+    }
+    (seqs, calls)
+}
+
 pub fn replay(v: &serde_json::Value) -> i32 {
+    if let Some(h) = v["history"].as_array() {
+        let mut bad = 0;
+        for a in h {
+            let ip: IpAddr = a.as_str().unwrap_or("").parse().expect("ip");
+            let id: [u8; 20] = InfoHash::from_ip(ip).into();
+            let ok = bep42_valid(ip, &id);
+            println!("from_ip({ip}) = {} valid={}", hex(&id), ok);
+            if !ok {
+                bad += 1;
+            }
+        }
+        return if bad > 0 { 1 } else { 0 };
+    }
     let ip: IpAddr = v["ip"].as_str().unwrap_or("").parse().expect("ip");
     let mut bad = 0;
     for _ in 0..64 {
@@ -125,6 +212,9 @@ pub fn run(tier: Tier) -> Report {
         eprintln!("machinery error: {e}");
         std::process::exit(2);
     }
+    // call histories first (single-threaded: a per-process cache would be shared between workers)
+    let hist_depth = if matches!(tier, Tier::Thorough) { 4 } else { 3 };
+    let (hist_seqs, hist_calls) = history_layer(hist_depth, &mut rep);
     // IPv4: all 2^20 combinations of mask-relevant bits x remaining bits all-0 / all-1.
     let chunks: Vec<u32> = (0..256).collect(); // split by the 8 relevant bits of the last octet
     let parts = par_map(&chunks, |_, &last| {
@@ -269,7 +359,7 @@ pub fn run(tier: Tier) -> Report {
     }
 
     // ids that fail BEP42 are reported first; only a run without any is asked for full coverage of r
-    if !total.incomplete.is_empty() && total.bad.is_empty() {
+    if !total.incomplete.is_empty() && total.bad.is_empty() && rep.violations.is_empty() {
         eprintln!(
             "machinery error: 400 draws did not cover all 8 values of r for {:?}",
             total.incomplete[0]
@@ -289,6 +379,10 @@ pub fn run(tier: Tier) -> Report {
     rep.set("transitions", total.draws);
     rep.set("traces_validated_against_impl", total.draws);
     rep.set("ipv4_addresses", v4_addrs);
+    rep.set("history_alphabet", history_alphabet().len());
+    rep.set("history_depth", hist_depth);
+    rep.set("history_sequences", hist_seqs);
+    rep.set("history_calls_validated", hist_calls);
     rep.set("ipv6_addresses", v6_addrs);
     rep.set("exhaustive", true);
     rep.set(
